@@ -232,6 +232,12 @@ class ClientWorld(object):
         if self.stopped or self.clock.seconds() > self.horizon_s:
             return []
         io = self.io_events()
+        late_closed = []
+        if self.menu.get("lazy_close"):
+            # connectionLost notifications take their time: by default they are delivered after the application's
+            # next call instead of eagerly
+            late_closed = [x for x in io if x[0].startswith("closed:")]
+            io = [x for x in io if not x[0].startswith("closed:")]
         cand = list(io)
         io_default = any(c == Z for _l, c in io)
         mid = self.mid_events(io_default)
@@ -244,6 +250,7 @@ class ClientWorld(object):
                 cand.append(("app:%d" % self.script_pos, Z))
             elif self.menu.get("app_early") and self.app_early_ok(op):
                 cand.append(("app:%d" % self.script_pos, S))
+        cand.extend(late_closed)
         have_default = any(c == Z for _l, c in cand)
         if self.clock.pending():
             if not have_default:
